@@ -23,7 +23,7 @@ class Hist:
         s.add(Step('edit', 'step edit %s %s' % (hx(path), hx(content)), path=path))
     def rewrite_manifest(s):
         s.add(Step('manifest', 'step edit %s %s' % (hx('build.ninja'), hx(s.g.manifest())), g_after=copy.deepcopy(s.g)))
-    def transformed(s, sid, f):
+    def transformed(s, sid, f, manifest_on_sethidden=False):
         """the same history on the graph f(g) (f applied to every snapshot)"""
         h2 = Hist(sid, f(s.g0))
         for st in s.steps:
@@ -32,6 +32,7 @@ class Hist:
             elif st.kind == 'sethidden':
                 g2 = f(st.g_after); e2 = [e for e in g2.edges if e.idx == st.edge][0]
                 h2.add(Step('sethidden', 'step sethidden %s %s' % (hx(e2.out0), ' '.join(hx(x) for x in e2.hidden)), edge=st.edge, g_after=g2))
+                if manifest_on_sethidden: h2.add(Step('manifest', 'step edit %s %s' % (hx('build.ninja'), hx(g2.manifest())), g_after=g2))
             elif st.kind == 'build':
                 d = dict(st.__dict__); d['g'] = f(st.g); d.pop('kind'); d.pop('line')
                 h2.add(Step('build', st.line, **d))
@@ -54,7 +55,7 @@ def default_targets(g):
 def rand_sched(rnd, n): return [rnd.randrange(0, 8) for _ in range(n)]
 
 def gen_history(rnd, sid, nedges, nsteps, feat=None, faults=0.0, wf_reads=True, repeat_builds=True, partial_targets=0.3,
-                mutate=True, tokens=0.25, graph_hook=None, no_dd_mutation=False):
+                mutate=True, tokens=0.25, graph_hook=None, no_dd_mutation=False, drop_wf_after_first=False):
     g = engine.gen_graph(rnd, nedges, feat, wf_reads)
     if graph_hook: g = graph_hook(g)
     h = Hist(sid, g)
@@ -71,7 +72,17 @@ def gen_history(rnd, sid, nedges, nsteps, feat=None, faults=0.0, wf_reads=True, 
                 fl[e.out0] = (rnd.choice([1, 1, 2, 3, 127, 255]), rnd.random() < 0.4)
         tok = rnd.choice([0, 1, 2, 3]) if rnd.random() < tokens else None
         return h.build(rnd, targets, j=j, k=k, sched=rand_sched(rnd, 2 * len(g.edges) + 2), faults=fl or None, tokens=tok)
-    do_build(faults * 0.5)
+    if drop_wf_after_first:
+        # everything is built once with the manifest path in place, so that every dependency is on record from an ordered run
+        h.build(rnd, [e.out0 for e in g.edges], j=rnd.choice([1, 3]), k=1, sched=rand_sched(rnd, 2 * len(g.edges) + 2))
+    else:
+        do_build(faults * 0.5)
+    if drop_wf_after_first:
+        # from now on the generators of discovered dependencies are reachable ONLY through the recorded deps
+        prod0 = g.producer()
+        for e in g.edges:
+            if e.hidden and (e.deps or e.depfile): e.oo = [x for x in e.oo if not (x in e.hidden and x in prod0)]
+        h.rewrite_manifest(); wf_reads = False
     for _ in range(nsteps):
         if not mutate: break
         r = rnd.random()
@@ -697,3 +708,11 @@ def oracle_c03(h, st, b, prev):
     if got - exp: bad.append('after the single change %s ninja ran %s which that change does not affect (affected: %s)' % (ch, sorted(got - exp), sorted(exp)))
     if exp - got: bad.append('after the single change %s ninja did not run %s (ran %s)' % (ch, sorted(exp - got), sorted(got)))
     return bad or None
+
+# ------------------------------------------------------------------ C10: discovered vs declared
+def gen_deps_pair(rnd, sid, wf_reads):
+    feat = dict(deps=0.8, dyndep=0.0, generator=0.0, restat=0.25, phony=0.1, validations=0.05)
+    a = gen_history(rnd, sid + '_disc', rnd.randrange(2, 8), rnd.randrange(1, 6), feat=feat, faults=0.0, tokens=0.0, wf_reads=True, repeat_builds=False,
+                    drop_wf_after_first=not wf_reads, partial_targets=0.5)
+    b = a.transformed(sid + '_decl', engine.inline_deps, manifest_on_sethidden=True)
+    return a, b
